@@ -70,7 +70,8 @@ fn renaming_from(prog: &Program, rng: &mut Rng, generated_lookalikes: bool) -> R
     let all: Vec<String> = if generated_lookalikes {
         GO_KEYWORDS.iter().chain(GO_PREDECLARED).chain(RUNTIME_NAMES).chain(TEMPS).chain(MANGLED).map(|s| s.to_string()).filter(|s| !existing.contains(s)).collect()
     } else {
-        GO_KEYWORDS.iter().chain(GO_PREDECLARED).chain(["fmt", "main0", "init"].iter()).map(|s| s.to_string()).filter(|s| !existing.contains(s)).collect()
+        // ("String" is left out: a type of that name meets the recorded case-folding finding of ref_struct_name)
+        GO_KEYWORDS.iter().chain(GO_PREDECLARED).chain(["fmt", "main0", "init"].iter()).map(|s| s.to_string()).filter(|s| !existing.contains(s) && s != "String").collect()
     };
     // value namespace: functions, locals and variants get mutually distinct names
     let mut value_pool = all.clone();
